@@ -166,12 +166,10 @@ func runConcurrent(goroutines, iters int) {
 	}{{7, false}, {7, true}, {8, false}, {9, false}, {9, true}, {65537, false}, {32, false}, {27, true}}
 	bad := 0
 	for _, c := range cfgs {
+		// The concurrent phase comes FIRST and runs on freshly constructed objects: anything the library fills in
+		// lazily on first use (in the shared objects or in package-level state) is then filled in by racing
+		// goroutines. The sequential reference is computed afterwards on a second, equally fresh set of objects.
 		s := mkShared(c.q, c.tables)
-		// sequential reference
-		want := make([]string, goroutines)
-		for g := 0; g < goroutines; g++ {
-			want[g] = work(s, seed*1000+int64(g), iters)
-		}
 		got := make([]string, goroutines)
 		var wg sync.WaitGroup
 		for g := 0; g < goroutines; g++ {
@@ -187,6 +185,11 @@ func runConcurrent(goroutines, iters int) {
 			}(g)
 		}
 		wg.Wait()
+		s2 := mkShared(c.q, c.tables)
+		want := make([]string, goroutines)
+		for g := 0; g < goroutines; g++ {
+			want[g] = work(s2, seed*1000+int64(g), iters)
+		}
 		for g := range got {
 			if got[g] != want[g] {
 				fmt.Printf("MISMATCH %s goroutine %d: concurrent %s sequential %s\n", s.name, g, got[g], want[g])
